@@ -11,6 +11,7 @@ CONSTANTS
   MaxUDP = 1232
   FrameMode = "checked"
   PtrMode = "bounded"
+  UnpackMode = "assign"
   DecoderMode = "pure"
   NonceMode = "fresh"
   ReqLens = {}
